@@ -8,7 +8,9 @@ Line driver for C34: one global history per line, N nodes, each honest node with
       E,<i>,<p>,<fe>           honest i endorses the stored proposal of p (endorseBlock)            -> m<k> | no:…
       K,<i>                    honest i asks endorseDone and commits the verdict (commitBlock)      -> m<k>:p/fe | no:…
       D,<k>,<to> / DA,<k>      message k is delivered to honest node <to> / to every honest node
-      S,<i>                    honest i asks commitDone and seals the verdict                       -> sealed:p.ver/fe | …
+      S,<i>                    honest i handles a commit message: the gate of that seal site (Gen/SealGates.lean,
+                               commitDone in the shipped code), seals the verdict                   -> sealed:p.ver/fe | …
+      CT,<i>                   honest i handles a commit timeout: sealed / commit had been done / the gate of that site
       FE,<sender>,<endorser>,<p>,<hash>,<fe>,<sig>                         a Byzantine sender creates an endorse message
       FC,<sender>,<committer>,<p>,<hash>,<fe>,<sig>,<psig>,<e=sig+…|->     … a commit message
 
@@ -43,6 +45,13 @@ def stepWire (v : Variant) (w : World) (op : String) : Option (List (World × St
     | some i =>
       some ((orders (w.node i).cand.endorseSigs (isEndorser w.N w.C (allPeers w))).foldl (fun acc o =>
         let r := step v w (.seal i o)
+        if acc.any (fun x => x.2 == r.2) then acc else acc ++ [r]) [])
+    | none => none
+  | ["CT", i] =>
+    match i.toNat? with
+    | some i =>
+      some ((orders (w.node i).cand.endorseSigs (isEndorser w.N w.C (allPeers w))).foldl (fun acc o =>
+        let r := step v w (.commitTimeout i o)
         if acc.any (fun x => x.2 == r.2) then acc else acc ++ [r]) [])
     | none => none
   | ["D", k, to] =>
@@ -93,8 +102,40 @@ def runWire (v : Variant) : List (World × String) → List String → Option (L
     | some ws' => runWire v (ws'.take 4096) r
     | none => none
 
+/-- histories tried by `SEARCH` when a proof obligation is broken: schedules on which agreement depends on the seal gates -/
+def searchLines : List String :=
+  [ -- Y = 2 times out on leader 0, endorses and commits Byzantine 2nd proposer 3's block B; its commit timeout fires
+    -- before any commit for the leader's block A arrives; 1 seals A on {0, 1, 3}
+    "H 4 1 3 P,2,3,0;E,2,3,0;K,2;CT,2;P,0,0,0;P,1,0,0;E,1,0,0;K,1;FE,3,3,0,0,0,3.0;D,4,1;S,1",
+    -- the same with the decision taken in the commit-message branch
+    "H 4 1 3 P,2,3,0;E,2,3,0;K,2;S,2;P,0,0,0;P,1,0,0;E,1,0,0;K,1;FE,3,3,0,0,0,3.0;D,4,1;S,1" ]
+
+/-- does some world of the line end with two honest nodes having sealed different blocks? -/
+def diverges (line : String) : Bool :=
+  match fields line with
+  | ["H", n, c, fs, ops] =>
+    match n.toNat?, c.toNat?, parseCsv fs with
+    | some N, some C, some fs =>
+      let rec go (ws : List World) : List String → List World
+        | [] => ws
+        | op :: r => go ((ws.flatMap fun w => match stepWire .asShipped w op with
+                                              | some succ => succ.map (·.1)
+                                              | none => []).take 256) r
+      (go [{ N := N, C := C, faulty := fs }] (ops.splitOn ";")).any (fun w => !agree w)
+    | _, _, _ => false
+  | _ => false
+
+def search : String :=
+  match searchLines.find? diverges with
+  | some l => s!"witness {l} => honest nodes seal different blocks with 1 of 4 nodes Byzantine when the seal gates are " ++
+      s!"processMsgEvent={OntVerif.Gen.SealGates.msgCommitGate} processTimerEvent={OntVerif.Gen.SealGates.commitTimeoutGate}"
+  | none => "none"
+
 def handle (line : String) : String :=
   match fields line with
+  | ["SEARCH"] => search
+  | ["GATES"] =>   -- the facts this driver was compiled with (asked for by harness/cmd/c34 at start-up)
+    s!"processMsgEvent={OntVerif.Gen.SealGates.msgCommitGate} processTimerEvent={OntVerif.Gen.SealGates.commitTimeoutGate}"
   | "R" :: _ => "srv"    -- real-Server lines: service.go's handlers are not modelled, only the predicate is evaluated
   | ["H", n, c, fs, ops] =>
     match n.toNat?, c.toNat?, parseCsv fs with
